@@ -29,6 +29,8 @@ def clean_build_sha(fam, present, opt, ver, workroot: Path, font="Font.ttf"):
     sb = cli.Sandbox(d)
     for s in present:
         sb.write(src_rel(s), cli.svg_variant(SRC_TEXT[src_rel(s)], ver.get(s, 0)))
+    for rel, text in getattr(fam, "configs", {}).items():
+        sb.write(rel, text)
     rc, out = sb.run(fam.args([src_rel(s) for s in present], opt))
     sha = sb.sha(font) if rc == 0 else None
     import shutil
@@ -69,6 +71,8 @@ def replay_history(fam, rec, workroot: Path, tag):
     ver = {}
     for s in present:
         sb.write(src_rel(s), SRC_TEXT[src_rel(s)])
+    for rel, text in getattr(fam, "configs", {}).items():
+        sb.write(rel, text)
     problems = []
     stats = {"invocations": 0, "faults": 0, "user_ops": 0, "compared_ran": 0, "compared_fresh": 0}
     hist = rec["hist"][1:]
@@ -182,6 +186,8 @@ def replay_option_cycle(fam, opts_seq, workroot: Path, tag, fault_at=None):
     present = sorted("../" + s for s in fam.sources)
     for s in present:
         sb.write(src_rel(s), SRC_TEXT[src_rel(s)])
+    for rel, text in getattr(fam, "configs", {}).items():
+        sb.write(rel, text)
     problems = []
     try:
         for i, opt in enumerate(opts_seq):
